@@ -472,3 +472,62 @@ def r8_initial_state_owned(ctx):
 
 RULES.append(r8_initial_state_owned)
 RULES.append(lazy("common", "r_last_output_order", "completion is inferred from the last output in the order the runner publishes them: a wrong order ends the run with tasks never dispatched"))
+
+
+def r11_queued_fetch_survives_planning(ctx):
+    """C03.R11: a requested output that was queued for fetching when it was published is fetched by the next flush, whatever the planning
+    step in between did to the bookkeeping of the producing host.  History, each step run on the state the previous one left: the
+    output D (requested, one consumer c) is published on H1 and queued; c is assigned to a sibling worker of H1 with D as local
+    preparation; plan(); flush_queues().  The fetch of D from H1 must be commanded and the queue must be empty — otherwise nothing
+    is outstanding for D and the controller waits for ever (or ends without the value)."""
+    repo = ctx.repo
+    fp = repo.func("cascade.scheduler.api.plan")
+    ff = repo.func("cascade.controller.act.flush_queues")
+    ctx.analysed(fp.qual)
+    ctx.analysed(ff.qual)
+    from collections import defaultdict
+    D, Dc = ds("D", "p"), ds("Dc", "c")
+    H1 = Atom("H1")
+    Wa, Wb = worker(H1, "w0"), worker(H1, "w1")
+    asg = Obj("cascade.scheduler.core.Assignment", {"worker": Wb, "tasks": ["c"], "prep": [(D, H1)], "outputs": {Dc}}, name="ASSIGNMENT")
+    env = {
+        "state.fetching_queue": {D: H1},
+        "state.outputs": {D: None},
+        "state.purging_tracker": {D: {"c"}, Dc: set()},
+        "state.purging_queue": [],
+        "state.edge_o": ddict(set, {D: {"c"}}),
+        "state.ds2host": ddict(dict, {D: {H1: st("available")}}),
+        "state.host2ds": ddict(dict, {H1: {D: st("available")}}),
+        "state.host2workers": {H1: [Wa, Wb]},
+        "state.worker2ds": ddict(dict, {Wa: {D: st("available")}}),
+        "state.ds2worker": ddict(dict, {D: {Wa: st("available")}}),
+        "state.worker2ts": ddict(dict), "state.ts2worker": ddict(dict), "state.ongoing": ddict(set), "state.ongoing_total": 0,
+        "state.ts2component": ddict(lambda: 0),
+    }
+    ip = Interp(repo, call_models={"cascade.scheduler.assign.update_worker2task_distance": lambda run, a, k, n, f: a[3] if len(a) > 3 else k.get("state")})
+    ps = ip.explore(fp, env=env, args={"assignments": [asg]})
+    ctx.evals(len(ps))
+    done = [p for p in ps if p.exit[0] == "return"]
+    if len(ps) != 1 or not done:
+        ctx.undecided("C03.R11", loc(fp), f"plan on the model state: {[(p.exit[0], vkey(p.exit[1])[:80]) for p in ps]}")
+        return
+    heap = {k: v for k, v in done[0].heap.items() if k.startswith("state.")}
+    status = vkey(heap["state.host2ds"][H1].get(D))
+    ps2 = Interp(repo, inline={"cascade.controller.notify.consider_purge"}).explore(ff, env=heap)
+    ctx.evals(len(ps2))
+    n = 0
+    for p in ps2:
+        n += 1
+        fetches = [e for e in p.effects if is_call(e, qual="cascade.executor.bridge.Bridge.fetch")]
+        fq = p.heap.get("state.fetching_queue")
+        if p.exit[0] != "return" or len(fetches) != 1 or fetches[0].data["args"][:2] != [D, H1] or fq != {}:
+            ctx.violation("C03.R11", ff.qual, loc(ff), "queued fetch commanded after planning",
+                          f"D published on H1 and queued for fetching; its consumer assigned to H1.w1, plan() (host record of D on H1 afterwards: {status}); flush_queues "
+                          f"then ends with {p.exit[0]}, fetch commands {[x.brief()[:80] for x in fetches]}, queue left {vkey(fq)[:80]} — nothing is outstanding for the "
+                          f"requested output any more: the controller waits for ever or returns without it")
+        else:
+            ctx.ok("C03.R11", loc(ff), f"publish -> plan (host record: {status}) -> flush: the queued fetch is commanded, queue empty")
+    ctx.floor("C03.R11.paths", n, 1)
+
+
+RULES.append(r11_queued_fetch_survives_planning)
